@@ -1,7 +1,8 @@
 (** C16 - Diffs are faithful to both values.  Statements only; the proofs are in Diff/Proofs_*.v.
     Vocabulary: Diff/Model.v (the transcription of diff/*.go and function.go:diffEnv) and Diff/Spec.v. *)
 From Dawn Require Import Diff.Model Diff.Spec Diff.Proofs_Basic Diff.Proofs_Record Diff.Proofs_Search
-     Diff.Proofs_Seq Diff.Proofs_Rounds Diff.Proofs_Value Diff.Proofs_Reason.
+     Diff.Proofs_Seq Diff.Proofs_Rounds Diff.Proofs_Value Diff.Proofs_Reason
+     Diff.SpecCost Diff.Proofs_Total Diff.Proofs_Min.
 Open Scope Z_scope.
 
 (** The diff of two values is empty exactly when they are equal (EqualDepth at the same depth says true). *)
@@ -133,6 +134,67 @@ Theorem generic_reason_names_no_key :
 Proof. exact generic_reason_lemma. Qed.
 Print Assumptions generic_reason_names_no_key.
 
+(** TOTALITY.  The theorems above are about the runs that return; these say that every run does.
+    [Panic] (an index or slice out of range) and [OutOfFuel] (the model's loop bounds exceeded, which is how a
+    non-terminating Go loop would show) are explicit outcomes of the model; none is reachable.
+
+    The O(NP) search, on sequences given shorter first and with the fp/path arrays of the size compose
+    allocates (at least m + n + 3), returns a state, or the depth error of EqualDepth (and then some pair of
+    elements really makes EqualDepth fail) -- for EVERY route-table size.  The fuel of the model that
+    suffices is S (length a) iterations of the [for p] loop: p never exceeds the shorter length. *)
+Theorem search_total : forall (A : Type) (eqv : A -> A -> option bool) route_size a b size,
+  zlen A a <= zlen A b -> zlen A a + zlen A b + 3 <= size ->
+  (exists st, search A eqv route_size a b size = Ok st) \/
+  ((exists x y, eqv x y = None) /\ search A eqv route_size a b size = ErrDepth).
+Proof. exact search_safe_lemma. Qed.
+Print Assumptions search_total.
+
+(** diffSlice, for all sequences in either order and every route-table size >= 1 (the code's is 2 000 000),
+    returns a script or the depth error.  Fuel that suffices (the model's own): S (length routes) links when
+    the route chain is followed back (each link points to an earlier entry), [walk_fuel] steps of the walker
+    per point, and S (length a + length b) rounds of compose's outer loop, because a round that stops on a
+    full route table has still moved the walker by at least one element; the replace merge cannot slice out
+    of range. *)
+Theorem diff_slice_total : forall (A : Type) (eqv : A -> A -> option bool) route_size a b,
+  1 <= route_size ->
+  (exists script, diff_slice A eqv route_size a b = Ok script) \/
+  ((exists x y, eqv x y = None) /\ diff_slice A eqv route_size a b = ErrDepth).
+Proof. exact diff_slice_total_lemma. Qed.
+Print Assumptions diff_slice_total.
+
+(** The bound on the route-table size is needed: with a table of size 0 compose's outer loop makes no
+    progress on [1] against [2], whatever the number of rounds (the Go loop would never end; the constant in
+    the source is 2 000 000 and the check compares it with the model's parameter). *)
+Theorem route_size_zero_loops : forall rounds,
+  compose_rounds Z (fun x y => Some (x =? y)) 0 rounds 5 true [1] [2] [] = OutOfFuel.
+Proof. exact route_size_zero_loops_lemma. Qed.
+Print Assumptions route_size_zero_loops.
+
+(** DiffDepth (hence Diff, its instance at depth CompareLimit) on any two values of the universe, at any
+    depth: a diff, "no difference", or the depth error; never a panic, never a loop. *)
+Theorem diff_depth_total : forall route_size depth a b,
+  1 <= route_size ->
+  (exists r, diff_depth route_size depth a b = Ok r) \/ diff_depth route_size depth a b = ErrDepth.
+Proof. exact diff_depth_total_lemma. Qed.
+Print Assumptions diff_depth_total.
+
+(** diffEnv always answers: its explicit panic "expected a diff in unequal environments" is unreachable and
+    a depth error of DiffDepth becomes the generic reason. *)
+Theorem diff_env_total : forall route_size, 1 <= route_size ->
+  forall stamp old new, exists r, diff_env stamp route_size old new = Ok r.
+Proof. exact diff_env_total_lemma. Qed.
+Print Assumptions diff_env_total.
+
+(** SIZE OF THE SCRIPT.  [script_cost] counts the elements deleted plus the elements inserted (a
+    replacement counts both of its sides), [script_kept] the elements under Common edits.  Every element of
+    either sequence is accounted for exactly once: cost + 2 * kept = |a| + |b|; in particular the script
+    never deletes and inserts more than |a| + |b| elements. *)
+Theorem script_cost_identity : forall (A : Type) (eqv : A -> A -> option bool) route_size a b script,
+  diff_slice A eqv route_size a b = Ok script ->
+  (script_cost script + 2 * script_kept script = length a + length b)%nat.
+Proof. exact script_cost_identity_lemma. Qed.
+Print Assumptions script_cost_identity.
+
 (** The hypotheses are satisfiable. *)
 Example ex_hypotheses :
   let a := VTuple [VInt 1; VInt 2; VInt 3] in
@@ -147,3 +209,11 @@ Example ex_reason :
   diff_env StampDiffers 2000000 (VDict [(VStr s_code, VInt 1); (VStr s_names, VInt 1)])
                    (VDict [(VStr s_code, VInt 2); (VStr s_names, VInt 1)]) = Ok (false, s_code ++ s_changed).
 Proof. vm_compute. reflexivity. Qed.
+
+(** totality and the size identity on a non-trivial instance: a route table of 3 points is exhausted (several
+    rounds), and the script is still produced and accounts for all 4 + 5 elements *)
+Example ex_total :
+  exhausted Z (fun x y => Some (x =? y)) 3 [1;2;3;4] [2;5;4;7;8] = Ok true /\
+  exists script, diff_slice Z (fun x y => Some (x =? y)) 3 [1;2;3;4] [2;5;4;7;8] = Ok script /\
+                 (script_cost script + 2 * script_kept script = 9)%nat.
+Proof. split; [vm_compute; reflexivity|]. eexists. split; [vm_compute; reflexivity|]. vm_compute. reflexivity. Qed.
